@@ -240,3 +240,27 @@ impl Spilly {
         }
     }
 }
+
+/// seeded: the poll is recorded and then truncated to a fetch limit (rows counted before they are cut)
+pub struct Trunc {
+    pub bm: Bm,
+    pub fetch: usize,
+}
+impl Trunc {
+    fn poll_inner(&mut self) -> Poll<Option<Batch>> {
+        Poll::Ready(produce())
+    }
+    fn apply_fetch(&mut self, poll: Poll<Option<Batch>>) -> Poll<Option<Batch>> {
+        match poll {
+            Poll::Ready(Some(b)) if b.0 > self.fetch => Poll::Ready(Some(Batch(self.fetch))),
+            other => other,
+        }
+    }
+}
+impl Stream for Trunc {
+    fn poll_next(&mut self) -> Poll<Option<Batch>> {
+        let p = self.poll_inner();
+        let p = self.bm.record_poll(p);
+        self.apply_fetch(p)
+    }
+}
